@@ -112,6 +112,9 @@ HARDFOLD = ["a" * 2040 + ";" + "a" * 959, "a" * 2039 + ";" + "a" * 960, "a" * 20
             "a" * 2039 + "\U0001d11e" * 4 + "a" * 900, "a" * 2040 + "\\" + "a" * 900, "a" * 2040 + "'" + "a" * 900, "a" * 2034 + " " + "a" * 900, "a" * 4090 + ";" + "a" * 30]
 
 
+RESERVED_LIKE = re.compile(r"^(data_|save_|loop_|stop_|global_|[?.]$|[_$#])", re.I)
+
+
 def descriptor_strings(tier, rnd):
     """strings built from runs of significant characters with run lengths around the line limit and the fold target"""
     classes = {"a": "a", "sp": " ", "sq": "'", "dq": '"', "semi": ";", "bsl": "\\", "nl": "\n", "u4": "𝄞", "br": "]", "hash": "#", "tab": "\t"}
@@ -139,7 +142,7 @@ def descriptor_strings(tier, rnd):
             for n in big[::2]:
                 out.append(classes[c1] + "a" * n + classes[c3])
                 out.append("a" * 5 + classes[c1] * 2 + "\n" + "b" * n + classes[c3] + "\n" + classes[c3] * 3)
-    extra = ["", "'''", '"""', "'''\"\"\"", "a'''b\"\"\"c", "\n;", "x\n;y", ";\n;", "\\\n", "a\\\n", "a\\  \nb", "> \\\nx", "\\\\\n", "ab\\", "a\n\nb", "\n", "\n\n", " \n ", "a \nb ", "?", ".", "1.5(2)", "data_x", "loop_", "_x", "$", "[a]",
+    extra = ["", "'''", '"""', "'''\"\"\"", "a'''b\"\"\"c", "\n;", "x\n;y", ";\n;", "\\\n", "a\\\n", "a\\  \nb", "> \\\nx", "\\\\\n", "ab\\", "a\n\nb", "\n", "\n\n", " \n ", "a \nb ", "?", ".", "1.5(2)", "data_x", "loop_", "_x", "$", "[a]", "DATA_x", "dAtA_y", "daTa_", "SAVE_f", "sAvE_", "LOOP_", "lOoP_", "STOP_", "Global_", "GLOBAL_",
              "a'b", 'a"b', "a' b", "'a", "a'", '"a', 'a"', "'\n", "\n'", "''\n'", "a\n'''", '"""\n', "x'''\ny\"\"\"\nz", ("a" * 2047 + "\n") * 3, ("ab " * 700), "𝄞" * 1030, ("é" * 2048), ("é" * 2049), "a" * 2041 + "\n;b", ";" * 2050, ";" * 2047,
              "'" * 2046, '"' * 2047, "'\"" * 1030, "\\" * 2049, "a" * 2040 + "\\", " " * 2049, "a " * 1030 + "\\", "\t" * 5 + "a" * 2044,
              # one-line values that can only stand in a text field (both kinds of quote, or both triple delimiters) and end in a
@@ -249,8 +252,13 @@ def run_roundtrip(prop, ver, tier):
     strs = descriptor_strings(tier, rnd)
     positions = ["scalar", "loop", "list", "table", "key", "unquoted", "frame", "looplist", "looptable"] if ver == 2 else ["scalar", "loop", "unquoted", "frame", "list", "looplist", "looptable"]
     for i, s in enumerate(strs):
-        for pos in (positions if (tier != "quick" or s in HARDFOLD) else [positions[i % len(positions)], positions[(i * 3 + 1) % len(positions)]]):
-            if pos == "unquoted" and not ("bare" in py_adm(s)[0] or s in ("?", ".")):
+        sel = positions if (tier != "quick" or s in HARDFOLD) else [positions[i % len(positions)], positions[(i * 3 + 1) % len(positions)]]
+        if RESERVED_LIKE.match(s) and "unquoted" not in sel:
+            sel = sel + ["unquoted"]      # what looks like a reserved word is always also tried as a value marked unquoted
+        for pos in sel:
+            # (strings that may not stand unquoted are included when short: the library then refuses to mark them unquoted
+            # and they are written quoted - unless its notion of what may stand unquoted is wrong)
+            if pos == "unquoted" and not ("bare" in py_adm(s)[0] or s in ("?", ".")) and not (0 < len(s) < 40):
                 continue
             cases.append(("str:%s@%s" % (run_lengths(s), pos), api_case(s, pos, i)))
     # (c) names and codes with characters outside CIF 1.1's repertoire, at every place a name can stand (for CIF 1.1
